@@ -29,7 +29,7 @@ def _scratch_copy(repo):
 
 
 VARIANTS = os.path.join(extract.CACHE, "variants")
-VARIANT_KEEP = 320
+VARIANT_KEEP = 560
 FACT_FILES = ("tree_sitter_graph-lib.json", "tree_sitter_graph-bin.json", "tsg_control-lib.json")
 # behaviour-preserving refactorings on which a named rule is known to raise a false alarm (DESIGN.md 5c): run, reported, not counted
 from_selftest = os.path.join(VERIF, "selftest")
